@@ -575,6 +575,7 @@ class C26(Check):
 
     def run_case(self, case):
         out = Outcome()
+        wfiles.no_tqdm_monitor()
         base = tempfile.mkdtemp(prefix="c26-", dir=os.environ.get("VERIF_SCRATCH"))
         try:
             scn = Scenario(case, base)
